@@ -202,6 +202,9 @@ type Req struct {
 	Body   string // JSON body (app histories: Bind)
 	Dirty  []Dirty
 	Class  string
+	Nested int  `json:",omitempty"` // >0: the handler of this request serves request H[Nested] before it returns (overlapping requests, deterministically)
+	Inner  bool `json:",omitempty"` // served from inside another request's handler, not by the top-level loop
+	Panic  bool `json:",omitempty"` // the handler panics (no recovery middleware) after its dirtying program
 }
 
 type Case struct {
@@ -227,6 +230,8 @@ type probeView struct {
 	retained   int
 	ctx        *router.Context
 	hid        int
+	unstable   bool // the view changed while a nested request was served
+	shared     bool // the nested request's handler received the very same *Context
 }
 
 var (
@@ -255,18 +260,87 @@ func reqIndex(r *http.Request) int {
 	return i
 }
 
-// probe records the view at handler start.
-func probe(c *router.Context, hid int, presence int) {
+// snapshot reads what the public API shows.
+func snapshot(c *router.Context, hid int, presence int) *probeView {
 	v := &probeView{obj: reflect.ValueOf(c).Pointer(), paramCount: int(c.ParamCount()), all: sortedKV(c.AllParams()),
 		mapE: sortedKV(c.Params), version: c.Version(), pattern: c.RoutePattern(), aborted: c.IsAborted(), nerrors: len(c.Errors()),
 		presence: presence, ctx: c, hid: hid}
 	for _, n := range probeNames {
 		v.params = append(v.params, kv{n, c.Param(n)})
 	}
+	return v
+}
+
+func sameView(a, b *probeView) bool {
+	return a.paramCount == b.paramCount && reflect.DeepEqual(a.all, b.all) && reflect.DeepEqual(a.mapE, b.mapE) && a.version == b.version &&
+		a.pattern == b.pattern && a.aborted == b.aborted && a.nerrors == b.nerrors && reflect.DeepEqual(a.params, b.params)
+}
+
+// probe records the view at handler start (idx: the request index read from the request at handler entry).
+func probe(c *router.Context, idx, hid int, presence int) *probeView {
+	v := snapshot(c, hid, presence)
 	v.acc = acceptResults(c) // observes and dirties the cache
 	mu.Lock()
-	views[reqIndex(c.Request)] = v
+	views[idx] = v
 	mu.Unlock()
+	return v
+}
+
+var (
+	curHandler http.Handler // the router/app of the running history (nested requests)
+	curCase    *Case
+	broken     bool // a handler was entered with c.Request == nil: the context is shared with a request that released it
+)
+
+type probePanic struct{} // what a panicking probe handler panics with (expected, not a framework panic)
+
+// body of every probe handler, router and app level
+func handle(c *router.Context, hid int, presence int, bind func()) {
+	req := c.Request
+	if req == nil {
+		mu.Lock()
+		broken = true
+		mu.Unlock()
+		return
+	}
+	idx := reqIndex(req)
+	v := probe(c, idx, hid, presence)
+	var q Req
+	if curCase != nil && idx < len(curCase.H) {
+		q = curCase.H[idx]
+	}
+	if q.Nested > 0 && q.Nested < len(curCase.H) {
+		// another request is served while this one is in flight
+		func() {
+			defer func() {
+				if r := recover(); r != nil {
+					if _, ok := r.(probePanic); !ok {
+						panic(r)
+					}
+				}
+			}()
+			curHandler.ServeHTTP(httptest.NewRecorder(), newRequest(curCase.H[q.Nested], q.Nested))
+		}()
+		after := snapshot(c, hid, presence)
+		mu.Lock()
+		if !sameView(v, after) || c.Request != req {
+			v.unstable = true
+		}
+		if in := views[q.Nested]; in != nil && in.obj == v.obj {
+			v.shared = true
+		}
+		mu.Unlock()
+	}
+	if bind != nil {
+		bind()
+	}
+	dirty(c, q.Dirty)
+	if c.Response != nil {
+		c.Response.WriteHeader(200)
+	}
+	if q.Panic {
+		panic(probePanic{})
+	}
 }
 
 var errProbe = errors.New("probe error")
@@ -298,14 +372,8 @@ func dirty(c *router.Context, ds []Dirty) {
 	}
 }
 
-var histories = map[int][]Dirty{} // request index -> dirty program (set before the history runs)
-
 func routerHandler(hid int) router.HandlerFunc {
-	return func(c *router.Context) {
-		probe(c, hid, 0)
-		dirty(c, histories[reqIndex(c.Request)])
-		c.Response.WriteHeader(200)
-	}
+	return func(c *router.Context) { handle(c, hid, 0, nil) }
 }
 
 type payload struct {
@@ -315,13 +383,12 @@ type payload struct {
 
 func appHandler(hid int) app.HandlerFunc {
 	return func(c *app.Context) {
-		probe(c.Context, hid, len(c.Presence()))
-		if c.Request.Body != nil && c.Request.ContentLength > 0 {
-			var p payload
-			_ = c.BindOnly(&p)
-		}
-		dirty(c.Context, histories[reqIndex(c.Request)])
-		c.Response.WriteHeader(200)
+		handle(c.Context, hid, len(c.Presence()), func() {
+			if c.Request != nil && c.Request.Body != nil && c.Request.ContentLength > 0 {
+				var p payload
+				_ = c.BindOnly(&p)
+			}
+		})
 	}
 }
 
@@ -538,14 +605,40 @@ func drainPool() {
 	runtime.GC()
 }
 
+// historyTimeout bounds one history: a request that never completes is an observation (T), not a hang.
+const historyTimeout = 20 * time.Second
+
 func runCase(id string, cs Case) string {
+	done := make(chan string, 1)
+	go func() {
+		defer func() {
+			if r := recover(); r != nil {
+				l := hx.NewLine(id)
+				l.Tok("H").Nat(0).Nat(0).Sep().Tok("P")
+				done <- l.String() + hx.Comment(cs)
+			}
+		}()
+		done <- runHistory(id, cs)
+	}()
+	select {
+	case line := <-done:
+		return line
+	case <-time.After(historyTimeout):
+		// the stuck goroutines are abandoned; the next history builds its own router
+		mu = sync.Mutex{}
+		l := hx.NewLine(id)
+		l.Tok("H").Nat(0).Nat(0).Sep().Tok("T")
+		return l.String() + hx.Comment(cs)
+	}
+}
+
+func runHistory(id string, cs Case) string {
 	h := build(cs.C)
 	mu.Lock()
 	views = map[int]*probeView{}
-	histories = map[int][]Dirty{}
-	for i, q := range cs.H {
-		histories[i] = q.Dirty
-	}
+	broken = false
+	curHandler = h
+	curCase = &cs
 	mu.Unlock()
 	if cs.Conc > 0 {
 		runtime.GOMAXPROCS(cs.Conc)
@@ -553,11 +646,17 @@ func runCase(id string, cs Case) string {
 		runtime.GOMAXPROCS(1) // one P: sync.Pool hands the object just released to the next request
 	}
 	drainPool()
+	var pmu sync.Mutex
 	panicked := false
 	serve := func(i int) {
 		defer func() {
 			if r := recover(); r != nil {
+				if _, ok := r.(probePanic); ok && cs.H[i].Panic {
+					return // the probe handler's own panic, no recovery middleware: expected
+				}
+				pmu.Lock()
 				panicked = true
+				pmu.Unlock()
 			}
 		}()
 		h.ServeHTTP(httptest.NewRecorder(), newRequest(cs.H[i], i))
@@ -568,6 +667,7 @@ func runCase(id string, cs Case) string {
 			v.retained = retainedMask(v.ctx) // after release: sequential runs only (another goroutine may own it otherwise)
 		}
 	}
+	_ = serve
 	if cs.Conc > 0 {
 		var wg sync.WaitGroup
 		ch := make(chan int)
@@ -581,15 +681,24 @@ func runCase(id string, cs Case) string {
 			}()
 		}
 		for i := range cs.H {
-			ch <- i
+			if !cs.H[i].Inner {
+				ch <- i
+			}
 		}
 		close(ch)
 		wg.Wait()
 	} else {
 		for i := range cs.H {
-			serve(i)
+			if !cs.H[i].Inner {
+				serve(i)
+			}
 		}
 	}
+	mu.Lock()
+	if broken {
+		panicked = true // a handler ran on a context whose Request another request had already cleared
+	}
+	mu.Unlock()
 	// reference for the Accept helpers: the same request on a brand-new context
 	l := hx.NewLine(id)
 	l.Tok("H")
@@ -655,7 +764,11 @@ func runCase(id string, cs Case) string {
 				l.Tok("X").Str(d.K)
 			}
 		}
-		l.Tok("N").I64(1) // the chain ran: index advanced
+		if o.q.Panic {
+			l.Tok("P")
+		} else {
+			l.Tok("N").I64(1) // the chain ran: index advanced
+		}
 		ref := router.NewContext(httptest.NewRecorder(), newRequest(o.q, o.idx))
 		l.Str(acceptResults(ref))
 		l.Str(o.q.Accept)
@@ -680,7 +793,12 @@ func runCase(id string, cs Case) string {
 		kvs(v.mapE)
 		l.Str(v.version).Str(v.pattern).Bool(v.aborted).Nat(v.nerrors).Str(v.acc).Nat(v.presence)
 		kvs(v.params)
-		l.Nat(v.retained)
+		if o.q.Panic || o.q.Nested > 0 || o.q.Inner {
+			l.Nat(0) // dropped un-reset by the panic / inspected while another request may hold it: no observation
+		} else {
+			l.Nat(v.retained)
+		}
+		l.Bool(!v.unstable).Bool(v.shared)
 	}
 	return l.String() + hx.Comment(cs)
 }
